@@ -75,6 +75,20 @@ def check_case(ctx, c, nq):
                 got2 = get_sparse_operator(x).toarray()
                 if not close(got2, want):
                     out.append(("sparse:default-width", "%s with default width differs from the definition" % desc))
+            # the SAME operator object converted again on other register widths, then on the first one again: every
+            # conversion is the tensor-product definition on the width that was asked for (numpy.kron as the second oracle)
+            for n2 in (n + 1, n, n + 2, n):
+                g2 = get_sparse_operator(x, n2).toarray()
+                w2 = pc.dense_real(x, n2)
+                if g2.shape != w2.shape or not close(g2, w2):
+                    out.append(("sparse:history", "%s: the same operator object converted on %d qubits after it had been converted on %d is not the tensor-product definition" % (desc, n2, n)))
+                    break
+            if pc.kind_of(x) == "sum" and len(x.terms) >= 1:
+                # a term object of the sum used on its own on a wider register, then the sum again
+                t0 = x.terms[-1]
+                g3 = get_sparse_operator(t0, n + 1).toarray()
+                if not close(g3, pc.dense_real(t0, n + 1)) or not close(get_sparse_operator(x, n).toarray(), want):
+                    out.append(("sparse:history:term", "%s: converting the sum's last term object on %d qubits (or the sum again afterwards) is not the tensor-product definition" % (desc, n + 1)))
         elif op == "conj":
             r = hermitian_conjugated(x)
             if not pc.canon_close(pc.canon_real(r), pc.canon_abstract(c["res"])):
@@ -174,10 +188,65 @@ def run(ctx):
             r = get_pauliop_from_matrix(m)
             if not close(pc.dense_real(r, n), np.array(m)):
                 ctx.violation("frommatrix:dense", "get_pauliop_from_matrix of a %d-qubit Gaussian-integer matrix does not convert back to it" % n, c)
+    wc = wide_cases(ctx.seed, quick)
+    for c, fails in zip(wc, ctx.pmap(check_wide, wc, chunksize=4)):
+        ctx.count(c, kind="wide registers (Z-strings on basis states)")
+        for key, msg in fails:
+            ctx.violation(key, msg, c)
+    ctx.bounds["wide"] = "Z-strings on 9..%d qubits on basis states and two-state superpositions (eigenvalue definition)" % (10 if quick else 12)
+
+
+def check_wide(ctx, c):
+    """registers wider than the specification's bound, where the definition is still cheap to state: a Z-string on a basis
+    state has the eigenvalue (-1)^(number of marked qubits that are 1), qubit 0 being the most significant bit of the index;
+    superpositions of two basis states give the average (Z-strings are diagonal)"""
+    from orquestra.quantum.operators import PauliSum, PauliTerm, get_expectation_value, get_sparse_operator
+    from orquestra.quantum.wavefunction import Wavefunction
+
+    n, marked, ones = c["n"], c["marked"], c["ones"]
+    out = []
+    idx = sum(1 << (n - 1 - q) for q in ones)
+    other = (idx ^ (1 << (n - 1 - marked[0]))) if c["super"] else idx
+    v = np.zeros(2**n, dtype=complex)
+    if other != idx:
+        v[idx] = np.sqrt(0.5)
+        v[other] = 1j * np.sqrt(0.5)
+    else:
+        v[idx] = 1.0
+    eig = lambda i: -1 if sum((i >> (n - 1 - q)) & 1 for q in marked) % 2 else 1
+    want = c["coef"] * (eig(idx) + eig(other)) / 2 + c["const"]
+    op = PauliSum([PauliTerm({q: "Z" for q in marked}, c["coef"]), PauliTerm({}, c["const"])]) if c["const"] else PauliTerm({q: "Z" for q in marked}, c["coef"])
+    desc = "%s on %d qubits, state = basis state(s) %s" % (op, n, sorted({idx, other}))
+    try:
+        got = complex(get_expectation_value(op, Wavefunction(v)))
+        diag = get_sparse_operator(op, n).diagonal()
+    except Exception as ex:
+        return [("wide:raised", "%s raised %s: %s" % (desc, type(ex).__name__, str(ex)[:200]))]
+    if abs(got - want) > 1e-9:
+        out.append(("wide:expect", "%s: get_expectation_value = %s, the eigenvalue average is %s" % (desc, got, want)))
+    if abs(diag[idx] - (c["coef"] * eig(idx) + c["const"])) > 1e-9 or abs(diag[other] - (c["coef"] * eig(other) + c["const"])) > 1e-9:
+        out.append(("wide:sparse", "%s: diagonal entries of the sparse operator at these basis states are %s / %s" % (desc, diag[idx], diag[other])))
+    return out
+
+
+def wide_cases(seed, quick):
+    rng = random.Random(seed + 909)
+    cases = []
+    for n in (9, 10) if quick else (9, 10, 11, 12):
+        for q in range(n):
+            for extra in ([], [rng.randrange(n)]):
+                marked = sorted({q, *extra})
+                ones = sorted({q, rng.randrange(n)})
+                cases.append({"k": "wide", "n": n, "marked": marked, "ones": ones, "super": bool((q + len(extra)) % 2), "coef": rng.choice([1.0, -2.0, 0.5]), "const": rng.choice([0, 0, 0.25])})
+    return cases
 
 
 def replay(ctx, case):
     ctx.count(case)
+    if case.get("k") == "wide":
+        for key, msg in check_wide(ctx, case):
+            ctx.violation(key, msg, case)
+        return
     if case.get("k") == "dense-matrix":
         return
     for key, msg in check_case(ctx, case, case["nq"]):
